@@ -132,6 +132,7 @@ type Interp struct {
 	Conds   map[string]bool // memo of symbolic branch decisions on this path
 	CondLog []string
 	CondV   []CondRec
+	IdxLog  []IdxRec // index / slice expressions on symbolic containers (bounds.go)
 	Steps   int
 	MaxStep int
 	Depth   int
@@ -235,9 +236,14 @@ func (in *Interp) Decide(cond Val, site ssa.Instruction) bool {
 			return b
 		}
 	}
-	// a decision on !x is the decision on x, recorded under x
+	// a decision on !x is the decision on x, recorded under x; a != b is
+	// recorded as the decision on a == b: one spelling per question, however
+	// the code phrases it
 	if sy, ok := cond.(*Sym); ok && sy.Op == "!" && len(sy.Args) == 1 {
 		return !in.Decide(sy.Args[0], site)
+	}
+	if sy, ok := cond.(*Sym); ok && sy.Op == "!=" && len(sy.Args) == 2 {
+		return !in.Decide(&Sym{Op: "==", Args: sy.Args, T: sy.T}, site)
 	}
 	k := Key(cond)
 	if b, ok := in.Conds[k]; ok {
@@ -745,6 +751,7 @@ func (in *Interp) indexAddr(x, idx Val, site ssa.Instruction) Val {
 		}
 	}
 	if s, ok := x.(*Sym); ok {
+		in.noteIndex("index", x, idx, site)
 		return &Sym{Op: "elemaddr", Args: []Val{s, idx}, T: nil}
 	}
 	if IsNil(x) {
@@ -776,6 +783,7 @@ func (in *Interp) index(x, idx Val, site ssa.Instruction) Val {
 			return MkIntT(int64(s[i]), types.Typ[types.Byte])
 		}
 	case *Sym:
+		in.noteIndex("index", x, idx, site)
 		return &Sym{Op: "index", Args: []Val{x, idx}, T: site.(ssa.Value).Type()}
 	case Top:
 		return xx
@@ -834,6 +842,13 @@ func (in *Interp) slice(x, lo, hi, mx Val, site ssa.Instruction) Val {
 	if in.Hooks.Slice != nil {
 		if r, ok := in.Hooks.Slice(in, x, lo, hi, mx, site); ok {
 			return r
+		}
+	}
+	if _, isSym := x.(*Sym); isSym {
+		if hi != nil {
+			in.noteIndex("slice", x, hi, site)
+		} else if lo != nil {
+			in.noteIndex("slice", x, lo, site)
 		}
 	}
 	args := []Val{x}
